@@ -27,6 +27,7 @@ class Obligation:
     line: int
     message: str
     detail: str = ''  # normalised offending text (part of the finding key)
+    recognised: bool = True  # False: the rule could not find the shape it understands - neither holds nor violated
 
     @property
     def key(self) -> str:
@@ -36,7 +37,7 @@ class Obligation:
         return {
             'rule': self.rule,
             'construct': self.construct,
-            'verdict': 'holds' if self.ok else 'VIOLATED',
+            'verdict': 'holds' if self.ok else ('VIOLATED' if self.recognised else 'NOT-RECOGNISED'),
             'where': f'{self.file}:{self.line}',
             'message': self.message,
             'detail': norm_text(self.detail),
@@ -60,11 +61,20 @@ class Ctx:
     def rule(self, rule: str, doc: str) -> None:
         self.rule_docs[rule] = norm_text(doc)
 
-    def add(self, rule: str, construct: str, ok: bool, where, message: str, detail: str = '') -> bool:
-        """where: (file, line) or an object with .file/.line, or (FuncInfo, ast node)."""
+    def add(self, rule: str, construct: str, ok: bool | None, where, message: str, detail: str = '') -> bool:
+        """where: (file, line) or an object with .file/.line, or (FuncInfo, ast node).
+        ok=None: the construct does not have a shape the rule understands (see shape())."""
         file, line = _where(where)
-        self.obligations.append(Obligation(rule, construct, bool(ok), file, line, norm_text(message), detail))
+        self.obligations.append(Obligation(rule, construct, bool(ok), file, line, norm_text(message), detail, recognised=ok is not None))
         return bool(ok)
+
+    def shape(self, rule: str, construct: str, matched, where, ok_message: str, what: str) -> bool:
+        """An obligation decided by recognising a shape.  A match discharges it.  No match is NOT a violation: the code may
+        have been rewritten in an idiom the rule does not know, so the analysis refuses to vouch (exit 2) instead of
+        accusing.  `what`: what the rule was looking for."""
+        if matched:
+            return self.add(rule, construct, True, where, ok_message, '')
+        return self.add(rule, construct, None, where, f'shape not recognised - expected: {what}', 'not-recognised')
 
     def note(self, text: str) -> None:
         self.notes.append(norm_text(text))
@@ -115,7 +125,8 @@ def finish(ctx: Ctx, t0: float, extra: dict | None = None, write_evidence: bool 
     """Print the report, write replay + evidence, return the exit code."""
     prop = ctx.prop
     known = known_keys(prop)
-    fails = [o for o in ctx.obligations if not o.ok]
+    unrec = [o for o in ctx.obligations if not o.ok and not o.recognised]
+    fails = [o for o in ctx.obligations if not o.ok and o.recognised]
     new, listed = [], []
     for o in fails:
         (listed if o.key in known else new).append(o)
@@ -131,8 +142,9 @@ def finish(ctx: Ctx, t0: float, extra: dict | None = None, write_evidence: bool 
         per_rule.setdefault(o.rule, []).append(o)
     for r in sorted(per_rule):
         obs = per_rule[r]
-        bad = sum(1 for o in obs if not o.ok)
-        print(f'  {r}: {len(obs)} obligations, {len(obs) - bad} discharged' + (f', {bad} FAILED' if bad else ''))
+        bad = sum(1 for o in obs if not o.ok and o.recognised)
+        nr = sum(1 for o in obs if not o.ok and not o.recognised)
+        print(f'  {r}: {len(obs)} obligations, {len(obs) - bad - nr} discharged' + (f', {bad} FAILED' if bad else '') + (f', {nr} NOT RECOGNISED' if nr else ''))
     for n in ctx.notes:
         print(f'XREF-NOTE: {n}')
     for o in listed:
@@ -164,7 +176,8 @@ def finish(ctx: Ctx, t0: float, extra: dict | None = None, write_evidence: bool 
                     + ' '.join(f'[{r}] {d}' for r, d in sorted(ctx.rule_docs.items()))
                 ),
                 'obligations': len(ctx.obligations),
-                'discharged': len(ctx.obligations) - len(fails),
+                'discharged': len(ctx.obligations) - len(fails) - len(unrec),
+                'not_recognised': [o.to_json() for o in unrec],
                 'evaluations': len(ctx.obligations),
                 'distinct_nontrivial': len(constructs),
                 'rule': 'one obligation per (rule, construct) instance found in the parsed tree; distinct = '
@@ -195,8 +208,16 @@ def finish(ctx: Ctx, t0: float, extra: dict | None = None, write_evidence: bool 
         os.makedirs(os.path.join(VERIF, 'evidence'), exist_ok=True)
         with open(os.path.join(VERIF, 'evidence', f'{prop}.json'), 'w', encoding='utf-8') as f:
             json.dump(ev, f, indent=1)
+    for o in unrec:
+        print(f'{o.file}:{o.line}: [{o.rule}] {o.construct}: {o.message}')
     print(
-        f'[{prop}] {len(ctx.obligations) - len(fails)}/{len(ctx.obligations)} obligations discharged, '
-        f'{len(listed)} known finding(s), {len(new)} violation(s)'
+        f'[{prop}] {len(ctx.obligations) - len(fails) - len(unrec)}/{len(ctx.obligations)} obligations discharged, '
+        f'{len(listed)} known finding(s), {len(new)} violation(s)' + (f', {len(unrec)} construct(s) not recognised' if unrec else '')
     )
-    return 1 if new else 0
+    if new:
+        return 1
+    if unrec:
+        print(f'ANALYSIS-ERROR property={prop}: {len(unrec)} construct(s) no longer have a shape the rules understand '
+              f'({", ".join(sorted({o.construct for o in unrec})[:6])}); the analysis does not vouch for this tree and does not accuse it')
+        return 2
+    return 0
